@@ -560,10 +560,16 @@ func VerifC36Conc() {
 	rate := 1
 	K := 3
 	if verifTier() == 1 {
-		K = 4
-		delays = verifC36Tables[verifChoice("table", len(verifC36Tables))]
+		// sequences of 4 on the first two tables, of 3 on the others; every idle timeout, both rates
+		tb := verifChoice("table", len(verifC36Tables))
+		if tb <= 1 {
+			K = 4
+		}
+		delays = verifC36Tables[tb]
 		idle = verifC36Idles[verifChoice("idle", len(verifC36Idles))]
-		rate = 1 + verifChoice("rate", 2)
+		if len(delays) > 2 {
+			rate = 1 + verifChoice("rate", 2)
+		}
 	} else {
 		delays = verifC36Tables[0]
 		idle = verifC36Idles[verifChoice("idle", 3)]
@@ -587,27 +593,24 @@ func VerifC36Conc() {
 // arrives; its context ends or its delay passes".
 func VerifC36ConcSym() {
 	verifC36UseNativeRest()
-	n := 2
-	rate := 1
+	n, rate, pre := 2, 1, 1
 	thorough := verifTier() == 1
 	if thorough {
-		n = 2 + verifChoice("tableLen", 2)
-		rate = 1 + verifChoice("rate", 2)
+		// table length, release rate, start level
+		cfg := [][3]int{{2, 1, 1}, {3, 1, 2}, {3, 2, 1}}[verifChoice("cfg", 3)]
+		n, rate, pre = cfg[0], cfg[1], cfg[2]
 	}
-	// quick tier: every level above zero has a delay, part of A's delay has passed, and with an
-	// idle timeout only "time passes, B arrives, time passes" (the other combinations: thorough)
+	// quick tier: every level above zero has a delay, and with an idle timeout only "time passes,
+	// B arrives, time passes" (the other combinations: thorough)
 	idleOn := verifChoice("idleOn", 2) == 1
 	thin := idleOn && !thorough
 	h := verifC36SymH(n, rate, idleOn, !thorough)
 	defer h.cleanup()
-	pre := 1 + verifChoice("startLevel", n-1)
 	for i := 0; i < pre; i++ {
 		h.signal()
 	}
-	h.step(3, "") // request A
-	if !thorough || verifChoice("pause", 2) == 1 {
-		h.step(7, "pauseNs") // part of A's delay passes
-	}
+	h.step(3, "")        // request A
+	h.step(7, "pauseNs") // part of A's delay passes (or of the idle timeout, if that is shorter)
 	// the level changes / time passes up to the next event (A is over, or the idle timeout expires)
 	change, ctxEnded, then := 3, 0, 1
 	if !thin {
